@@ -66,7 +66,7 @@ def url_of(req):
         if name == "id_shorts":
             return urllib.parse.quote(req["path"], safe="")
         if name == "path":
-            return req.get("tail", "x")
+            return urllib.parse.quote(req.get("tail", "x"), safe="/")
         return urllib.parse.quote(req[ARGS[name]], safe="=*!")
     url = G.BASE + re.sub(r"<(?:(\w+):)?(\w+)>", rep, req["rule"])
     if req.get("query"):
@@ -87,7 +87,7 @@ def http_of(req):
     elif b[0] == "val":
         obj = G.mk_obj(b[2])
         kw["data"] = G.to_json_bytes(obj) if b[1] == "json" else G.to_xml_bytes(obj)
-        kw["content_type"] = FMT_CT[b[1]]
+        kw["content_type"] = FMT_CT[b[1]] + (b[3] if len(b) > 3 else "")     # b[3]: Content-Type parameters
     elif b[0] == "upload":
         data = {}
         if b[1] is not None:
@@ -146,7 +146,7 @@ def coq_request(sym, req):
         body = f"(BVal {'false' if b[1] == 'json' else 'true'} {G.cvalue(sym, b[2])})"
     else:
         ok = b[1] is None or fname_ok(b[1])
-        printable = b[1] is not None and len(b[1]) < 200 and all(32 <= ord(c) < 127 for c in b[1])
+        printable = b[1] is not None and len(b[1]) <= 2100 and all(32 <= ord(c) < 127 for c in b[1])
         fn = "None" if b[1] is None else f"(Some {G.cstr(b[1] if printable else ('/' if b[1].startswith('/') else '') + 'unprintable')})"
         fl = "None" if b[2] is None else f"(Some ({b[2][0]}%nat, {b[2][1]}%nat))"
         body = f"(BUpload {fn} {'true' if ok else 'false'} {fl})"
